@@ -93,27 +93,61 @@ def validated_conversion(atom, f, node, site):
 
 
 def _validate_values_shape(atom):
-    """obligation: BaseProperty._validate_values loops over its argument and converts every element with
-    dtypes.get(<element>, self.dtype) inside a try whose handler catches Exception (or everything) and returns False."""
+    """obligation: BaseProperty._validate_values converts every element of its argument with dtypes.get(<element>, self.dtype) inside a try
+    whose handler catches Exception (or everything) and answers False - in a loop of its own, or through a private per-element helper that
+    it applies to every element (`all(self._ok(v) for v in values)`, or a loop that returns False when the helper does)."""
     f = atom.an.p.func("property.BaseProperty._validate_values")
     if len(f.params) < 2:
         return False
     me, arg = f.params[0], f.params[1]
-    from .symtext import Expander
-    x = Expander(f)
-    for loop in ast.walk(f.node):
-        if not (isinstance(loop, ast.For) and isinstance(loop.iter, ast.Name) and loop.iter.id == arg and isinstance(loop.target, ast.Name)):
-            continue
-        for tr in ast.walk(loop):
+    from .symtext import Expander, _is_private_helper_call
+
+    def guarded_conversion(fn, body_root, elem, self_name):
+        x = Expander(fn)
+        for tr in ast.walk(body_root):
             if not isinstance(tr, ast.Try):
                 continue
             conv = [c for st in tr.body for c in ast.walk(st) if isinstance(c, ast.Call) and ast.unparse(c.func) == "dtypes.get"
-                    and len(c.args) == 2 and isinstance(c.args[0], ast.Name) and c.args[0].id == loop.target.id
-                    and x.text(c.args[1]) in ("%s.dtype" % me, "%s._dtype" % me)]
+                    and len(c.args) == 2 and isinstance(c.args[0], ast.Name) and c.args[0].id == elem
+                    and x.text(c.args[1]) in ("%s.dtype" % self_name, "%s._dtype" % self_name)]
             catch_all = [h for h in tr.handlers if h.type is None or ast.unparse(h.type) in ("Exception", "BaseException")]
-            ret_false = [h for h in catch_all if any(isinstance(x, ast.Return) and isinstance(x.value, ast.Constant) and x.value.value is False
-                                                     for x in ast.walk(h))]
+            ret_false = [h for h in catch_all if any(isinstance(y, ast.Return) and isinstance(y.value, ast.Constant) and y.value.value is False
+                                                     for y in ast.walk(h))]
             if conv and ret_false:
+                return True
+        return False
+    for loop in ast.walk(f.node):
+        if isinstance(loop, ast.For) and isinstance(loop.iter, ast.Name) and loop.iter.id == arg and isinstance(loop.target, ast.Name):
+            if guarded_conversion(f, loop, loop.target.id, me):
+                return True
+    # per element helper
+    for n in ast.walk(f.node):
+        gens = []
+        if isinstance(n, ast.Call) and isinstance(n.func, ast.Name) and n.func.id == "all" and len(n.args) == 1 \
+                and isinstance(n.args[0], (ast.GeneratorExp, ast.ListComp)) and len(n.args[0].generators) == 1 and not n.args[0].generators[0].ifs:
+            gen = n.args[0].generators[0]
+            if isinstance(gen.iter, ast.Name) and gen.iter.id == arg and isinstance(gen.target, ast.Name):
+                gens.append((gen.target.id, n.args[0].elt))
+        if isinstance(n, ast.For) and isinstance(n.iter, ast.Name) and n.iter.id == arg and isinstance(n.target, ast.Name):
+            for t in ast.walk(n):
+                if isinstance(t, ast.If) and isinstance(t.test, ast.UnaryOp) and isinstance(t.test.op, ast.Not) and isinstance(t.test.operand, ast.Call) \
+                        and any(isinstance(y, ast.Return) and isinstance(y.value, ast.Constant) and y.value.value is False for y in t.body):
+                    gens.append((n.target.id, t.test.operand))
+        for elem, call in gens:
+            if not (isinstance(call, ast.Call) and len(call.args) == 1 and isinstance(call.args[0], ast.Name) and call.args[0].id == elem):
+                continue
+            try:
+                h = _is_private_helper_call(f, call)
+            except Exception:
+                h = None
+            if h is None:
+                continue
+            off = 1 if h.has_self else 0
+            if len(h.params) != off + 1:
+                continue
+            rets = [y for y in ast.walk(h.node) if isinstance(y, ast.Return)]
+            truthy_tail = any(isinstance(y.value, ast.Constant) and y.value.value is True for y in rets)
+            if truthy_tail and guarded_conversion(h, h.node, h.params[off], h.params[0] if h.has_self else me):
                 return True
     return False
 
